@@ -234,7 +234,7 @@ func generate1(sg sysgen, rng *rand.Rand) Case {
 		}
 		// Tags that contain another tag's text ("next-major" vs "next",
 		// "not-latest" vs "latest"): a tag is matched whole, not as a substring.
-		for _, t := range []string{"next-major", "next", "beta", "not-latest", "latest-rc", "Latest", "LATEST"} {
+		for _, t := range []string{"next-major", "next", "beta", "not-latest", "latest-rc", "Latest", "LATEST", "latest-2"} {
 			if rng.Intn(5) == 0 {
 				k := rng.Intn(len(list))
 				if list[k].Tags == "" {
@@ -295,6 +295,33 @@ func generate1(sg sysgen, rng *rand.Rand) Case {
 				}
 				return Case{Sys: sg.name, Req: req, List: list}
 			}
+		}
+	}
+	if sg.name == "NPM" && rng.Intn(12) == 0 {
+		// Stratum: a bare or "="-prefixed partial version ("1.2", "=1", "v2.0")
+		// with several versions of the list inside the range it denotes.
+		for _, v := range list {
+			pv, err := semver.NPM.Parse(v.V)
+			if err != nil || pv.IsPrerelease() {
+				continue
+			}
+			parts := strings.SplitN(strings.TrimPrefix(strings.SplitN(v.V, "+", 2)[0], "v"), ".", 3)
+			if len(parts) != 3 {
+				continue
+			}
+			for _, extra := range []string{parts[0] + "." + parts[1] + ".7", parts[0] + "." + parts[1] + ".11", parts[0] + ".9.0"} {
+				dup := false
+				for _, x := range list {
+					if x.V == extra {
+						dup = true
+					}
+				}
+				if !dup {
+					list = append(list, Ver{V: extra})
+				}
+			}
+			req := gen.Pick(rng, parts[0]+"."+parts[1], "="+parts[0], parts[0], "v"+parts[0]+"."+parts[1], "="+parts[0]+"."+parts[1])
+			return Case{Sys: sg.name, Req: req, List: list}
 		}
 	}
 	return Case{Sys: sg.name, Req: sg.req(rng, list), List: list}
